@@ -411,7 +411,13 @@ def apply_op(q, d, op, last_samples, cap=None, by=None):
         finally:
             plt.close("all")
     elif t == "print":
-        _ = {"str": str, "repr": repr, "format": "{}".format}[op[1]](d)
+        try:
+            _ = {"str": str, "repr": repr, "format": "{}".format}[op[1]](d)
+        except Exception as e:  # noqa: BLE001
+            # the printer cannot format a pair that is not a number (every sample outside the
+            # configured range: mean of nothing) -- how numbers are printed is C09's subject; what the
+            # quantity reports afterwards is judged by the reads that follow
+            return "print raised {}: {}".format(type(e).__name__, e)
     elif t == "bystander":
         if cap is not None:
             cap.paused = True
@@ -638,6 +644,8 @@ def judge_history(h, tr, m, failures, dist):
                 dist["display:{}-strategy-nothing-buffered".format(stt)] += 1
                 if o[1] != 100 or len(o) >= 5:
                     dist["display:{}-strategy-nothing-buffered-bins-or-window-not-default".format(stt)] += 1
+        elif opname == "print" and rec.get("note"):
+            dist["print:raised (pair not a number)"] += 1
         elif opname == "bystander":
             dist["bystander:" + rec["op"][1]] += 1
             if mop["st"]["size"] == 0:
